@@ -681,6 +681,21 @@ class TrainRun:
         self.res.simt("env_steps", sum(x.n_steps for x in self.sub_envs()))
         self.res.simt("episodes", sum(1 for x in self.sub_envs() for s in x.steps() if s["term"] or s["trunc"]))
         self.res.simt("snapshots", len(self.snaps))
+        # schedule faults that actually fired in this run (episode cuts placed by the environment scheduler)
+        cfg = self.plan.get("cfg", {})
+        ls, N = cfg.get("learning_starts"), cfg.get("buffer_size")
+        for x in self.sub_envs():
+            for st in x.steps():
+                if not (st["term"] or st["trunc"]):
+                    continue
+                self.res.fault("episode_end_" + ("both" if st["term"] and st["trunc"] else "terminated" if st["term"] else "truncated"))
+                if st["t"] == 0:
+                    self.res.fault("one_step_episode_cut")
+                k = self.plan.get("start_step", 0) + st["i"]
+                if ls is not None and k in (ls - 1, ls):
+                    self.res.fault("episode_end_at_warmup_boundary")
+                if N and (st["i"] + 1) % N == 0:
+                    self.res.fault("episode_end_at_ring_wrap")
         for e in [ev for x in self.sub_envs() for ev in x.log]:
             if e["k"] == "step":
                 self.res.log.add("s", e["i"], e["a"], e["gid0"], e["gid1"], e["r"], e["term"], e["trunc"])
